@@ -565,6 +565,17 @@ def plan_C08(rep, seed, tier):
                 rep.cov['mc_runs'][-1]['model_violation'] = True
                 rep.notes.append('MODEL-ALARM MC_DecLive %s: %s' % (r['name'], (r.get('error_text') or '')[:1200]))
                 log('MODEL-ALARM', r['name'], (r.get('error_text') or '')[:500])
+    elive = [MC_ENC_QUICK[i] for i in (0, 1, 2, 3, 4, 8)] if tier == 'quick' else MC_ENC_QUICK + MC_ENC_THOROUGH[-6:]
+    with concurrent.futures.ThreadPoolExecutor(max_workers=5) as ex:
+        futs = [ex.submit(mc_run, 'MC_EncLive', cfg, ('NoViolation',), ('Termination',), None, 3, 3000, False, '6g', 'LiveSpec') for cfg in elive]
+        for cfg, f in zip(elive, futs):
+            r = f.result()
+            rep.add_mc(r['name'], r, 'encoder liveness: LiveSpec (WF of Invoke(minimum capacity, last)) => <>(done), incl. the ISO-2022-JP return to ASCII and the NCR loop; safety: NoViolation')
+            rep.cov['mc_runs'][-1]['consts'] = cfg
+            if r.get('violated') or not r.get('completed'):
+                rep.cov['mc_runs'][-1]['model_violation'] = True
+                rep.notes.append('MODEL-ALARM MC_EncLive %s: %s' % (r['name'], (r.get('error_text') or '')[:1200]))
+                log('MODEL-ALARM', r['name'], (r.get('error_text') or '')[:500])
     rep.cov['rule'] = ('the documented caller loop with minimum (and minimum+1) capacities on all cut sets of short streams/texts and on seeded long ones; '
                        'zero-progress OutputFull, more than 4*units+16 calls, or no termination within 8*units+64 calls is a violation')
 
